@@ -433,8 +433,73 @@ def expected(case):
             if I(1) == 0:
                 return "PANIC"
             return hx(I(0) - I(0) % I(1))
-        if op == "iextended_gcd":
-            return None  # checked by identity in caller
+        if op in ("iextended_gcd", "iextended_gcd_lcm"):
+            # any Bezout pair is acceptable: checked by identity (a*x + b*y == g == gcd(a,b) >= 0, lcm == |a*b|/g)
+            x0, y0 = I(0), I(1)
+            g0 = math.gcd(x0, y0)
+            want = "g=%s x,y with %s*x+%s*y=g" % (hx(g0), hx(x0), hx(y0)) + ((" lcm=%s" % hx(0 if g0 == 0 else abs(x0 * y0) // g0)) if op.endswith("lcm") else "")
+
+            def ident(got, x0=x0, y0=y0, g0=g0, lcm=op.endswith("lcm")):
+                try:
+                    f = [(-int(t[1:], 16) if t.startswith("-") else int(t, 16)) for t in got.split()]
+                except ValueError:
+                    return False
+                if len(f) != (4 if lcm else 3):
+                    return False
+                if f[0] != g0 or x0 * f[1] + y0 * f[2] != g0:
+                    return False
+                return (not lcm) or f[3] == (0 if g0 == 0 else abs(x0 * y0) // g0)
+            return ("ID", ident, want)
+        if op in ("uhash_eq", "ihash_eq"):
+            x0, y0 = I(0), I(1)
+            return "%s Some(%s)" % ("true" if x0 == y0 else "false", "Less" if x0 < y0 else "Equal" if x0 == y0 else "Greater")
+        if op in ("udefault", "idefault"):
+            return "0"
+        if op in ("uchecked_add", "ichecked_add", "ichecked_add_t"):
+            return "Some(%s)" % hx(I(0) + I(1))
+        if op in ("ichecked_sub", "ichecked_sub_t"):
+            return "Some(%s)" % hx(I(0) - I(1))
+        if op in ("uchecked_mul", "ichecked_mul", "ichecked_mul_t"):
+            return "Some(%s)" % hx(I(0) * I(1))
+        if op in ("usum", "isum"):
+            return hx(sum(I(k) for k in range(len(a))))
+        if op in ("uproduct", "iproduct"):
+            v = 1
+            for k in range(len(a)):
+                v *= I(k)
+            return hx(v)
+        if op in ("ito_bytes_le", "ito_bytes_be"):
+            n = I(0)
+            m = abs(n)
+            d = list(m.to_bytes(max(1, (m.bit_length() + 7) // 8), "little"))
+            if op.endswith("be"):
+                d.reverse()
+            return "%s [%s]" % ("Minus" if n < 0 else "NoSign" if n == 0 else "Plus", ", ".join(str(x) for x in d))
+        if op in ("ifrom_bytes_le", "ifrom_bytes_be"):
+            bs = bytes(int(x, 16) for x in a[1:])
+            m = int.from_bytes(bs, "little" if op.endswith("le") else "big")
+            return hx(0 if a[0] == "0" else -m if a[0] == "-" else m)
+        if op in ("ito_u32_digits", "ito_u64_digits"):
+            n = I(0)
+            m, w, d = abs(n), (32 if "32" in op else 64), []
+            while m:
+                d.append(format(m & ((1 << w) - 1), "x"))
+                m >>= w
+            return "%s [%s]" % ("Minus" if n < 0 else "NoSign" if n == 0 else "Plus", ", ".join(d))
+        if op == "uiter64_nth":
+            n, k, d = I(0), I(1), []
+            while n:
+                d.append(n & (B64 - 1))
+                n >>= 64
+            r = "Some(%x)" % d[k] if k < len(d) else "None"
+            rest = d[k + 1:]
+            return "%s %d %s" % (r, len(rest), ("Some(%x)" % rest[0]) if rest else "None")
+        if op == "ibits":
+            return str(abs(I(0)).bit_length())
+        if op == "iis_even":
+            return "true false" if I(0) % 2 == 0 else "false true"
+        if op == "idivides":
+            return ("true" if I(0) == 0 else "false") if I(1) == 0 else ("true" if I(0) % I(1) == 0 else "false")
     except Exception:
         return None
     return None
@@ -529,6 +594,14 @@ def bank(pid, tier, seed):
         for a, b in signed(pairs(34)):
             for op in ("iadd", "iadd_vv", "iadd_vr", "iadd_rv", "iadd_assign", "isub", "isub_vv", "isub_vr", "isub_rv", "isub_assign"):
                 cases.append((op, hx(a), hx(b)))
+        for a, b in signed(list(pairs(6))[::4]):
+            for op in ("ichecked_add", "ichecked_sub", "ichecked_add_t", "ichecked_sub_t"):
+                cases.append((op, hx(a), hx(b)))
+            cases.append(("uchecked_add", hx(abs(a)), hx(abs(b))))
+            cases.append(("isum", hx(a), hx(b), hx(-a), hx(1)))
+            cases.append(("usum", hx(abs(a)), hx(abs(b)), hx(abs(a))))
+        cases.append(("usum",))
+        cases.append(("isum",))
     elif pid == "C02":
         for a, b in pairs():
             cases.append(("umul", hx(a), hx(b)))
@@ -559,6 +632,14 @@ def bank(pid, tier, seed):
         for a, _ in pairs(20):
             for s in EDGE:
                 cases.append(("umul_u64", hx(a), hx(s)))
+        for a, b in signed(list(pairs(5))[::4]):
+            cases.append(("ichecked_mul", hx(a), hx(b)))
+            cases.append(("ichecked_mul_t", hx(a), hx(b)))
+            cases.append(("uchecked_mul", hx(abs(a)), hx(abs(b))))
+            cases.append(("iproduct", hx(a), hx(b), hx(-1), hx(a)))
+            cases.append(("uproduct", hx(abs(a)), hx(abs(b)), hx(3)))
+        cases.append(("uproduct",))
+        cases.append(("iproduct",))
     elif pid in ("C03", "C14"):
         for a, b in pairs(66):
             for x, y in ((a, b), (a * b + (b // 2 if b else 0), b), (a * b, b), (a, a), (a + 1, a), (a, a + 1)):
@@ -606,6 +687,21 @@ def bank(pid, tier, seed):
         for s in ("-", "0", "+"):
             for a in (0, 1, B64, big(rng, 3)):
                 cases.append(("ifrom_biguint", s, hx(a)))
+        # in-place bit updates that shorten or lengthen the magnitude, hashing / partial order after different histories
+        P2 = [(1 << k) + d for k in (0, 1, 63, 64, 65, 127, 128, 192) for d in (-1, 0, 1) if (1 << k) + d > 0]
+        for x in P2:
+            for sgn_ in (1, -1):
+                for k in (0, 1, 5, 62, 63, 64, 65, 127, 128, 191, 192, 200):
+                    cases.append(("iset_bit", hx(sgn_ * x), hx(k), "1"))
+                    cases.append(("iset_bit", hx(sgn_ * x), hx(k), "0"))
+        for a, b in signed(list(pairs(5))[::3]):
+            cases.append(("ihash_eq", hx(a), hx(a)))
+            cases.append(("ihash_eq", hx(a), hx(b)))
+            cases.append(("ihash_eq", hx(a), hx(-a)))
+            cases.append(("uhash_eq", hx(abs(a)), hx(abs(a))))
+            cases.append(("uhash_eq", hx(abs(a)), hx(abs(b))))
+        cases.append(("udefault",))
+        cases.append(("idefault",))
     elif pid == "C05":
         for a, b in pairs(5):
             for m in (1, 2, 3, 4, 97, B64 - 1, B64, B64 + 1, big(rng, 2), big(rng, 3) | 1, big(rng, 3) & ~1 or 2):
@@ -782,6 +878,17 @@ def bank(pid, tier, seed):
             for v in (-(1 << (8 * k - 1)), (1 << (8 * k - 1)) - 1, (1 << (8 * k - 1)), -(1 << (8 * k - 1)) - 1, -1, 0):
                 cases.append(("ito_signed_bytes_le", hx(v)))
                 cases.append(("ito_signed_bytes_be", hx(v)))
+        for a, _ in list(pairs(5))[::2]:
+            for v in (a, -a):
+                for op in ("ito_bytes_le", "ito_bytes_be", "ito_u32_digits", "ito_u64_digits"):
+                    cases.append((op, hx(v)))
+            d = [format(x, "x") for x in a.to_bytes(max(1, (a.bit_length() + 7) // 8), "little")] + ["0"] * rng.randrange(3)
+            for sg_ in ("-", "0", "+"):
+                cases.append(("ifrom_bytes_le", sg_) + tuple(d))
+                cases.append(("ifrom_bytes_be", sg_) + tuple(reversed(d)))
+            nd = (a.bit_length() + 63) // 64
+            for k in sorted(set([0, 1, max(nd - 1, 0), nd, nd + 1])):
+                cases.append(("uiter64_nth", hx(a), hx(k)))
     elif pid == "C10":
         utypes = {"u8": 8, "u32": 32, "u64": 64, "u128": 128, "usize": 64}
         itypes = {"i8": 8, "i32": 32, "i64": 64, "i128": 128, "isize": 64}
@@ -866,6 +973,17 @@ def bank(pid, tier, seed):
             for op in ("ugcd", "ulcm", "uis_multiple_of", "unext_multiple_of", "uprev_multiple_of"):
                 cases.append((op, hx(a), hx(b)))
                 cases.append((op, hx(a * b), hx(b)))
+        for a, b in signed(list(pairs(5))[::2]):
+            cases.append(("iextended_gcd", hx(a), hx(b)))
+            cases.append(("iextended_gcd_lcm", hx(a), hx(b)))
+            cases.append(("iextended_gcd_lcm", hx(a * b), hx(b)))
+            cases.append(("idivides", hx(a), hx(b)))
+            cases.append(("idivides", hx(a * b), hx(b)))
+            cases.append(("iis_multiple_of", hx(0), hx(b)))
+            cases.append(("idivides", hx(0), hx(b)))
+            cases.append(("iis_even", hx(a)))
+        for b in (0, 1, 5, B64, big(rng, 3)):
+            cases.append(("uis_multiple_of", hx(0), hx(b)))
     elif pid == "C19":
         for a, b in signed(pairs(4)):
             for op in ("iabs_sub",):
@@ -907,12 +1025,17 @@ def search(pid, repo, tier, seed, budget_s=120):
             got = run_cases(binary, chunk, timeout=60)
         except subprocess.TimeoutExpired:
             c = find_hang(binary, chunk)
-            return {"op": c[0], "args": list(c[1:]), "expected": expected(c) or "(terminates)", "observed": "TIMEOUT (no answer within 20 s)"}, "", n
+            ec = expected(c)
+            return {"op": c[0], "args": list(c[1:]), "expected": (ec[2] if isinstance(ec, tuple) else ec) or "(terminates)", "observed": "TIMEOUT (no answer within 20 s)"}, "", n
         except Exception as e:
             return None, "driver run failed: %r" % e, n
         for c, e, g in zip(chunk, exp, got):
             n += 1
             if e is None:
+                continue
+            if isinstance(e, tuple) and e[0] == "ID":
+                if not e[1](g.strip()):
+                    return {"op": c[0], "args": list(c[1:]), "expected": e[2], "observed": g.strip()}, "", n
                 continue
             if e != g.strip():
                 return {"op": c[0], "args": list(c[1:]), "expected": e, "observed": g.strip()}, "", n
@@ -941,7 +1064,8 @@ def find_and_write(pid, viol, repo, tier, seed):
             except subprocess.TimeoutExpired:
                 again = "TIMEOUT (no answer within 20 s)"
             rec["confirmed_observed"] = again
-            if again == found["expected"]:
+            e2 = expected(tuple([found["op"]] + found["args"]))
+            if (isinstance(e2, tuple) and e2[1](again)) or again == found["expected"]:
                 rec["failing_input"] = None
                 found = None
         with open(path, "w") as f:
@@ -967,6 +1091,9 @@ def replay_file(path, repo):
     print("case:", fi["op"], " ".join(fi["args"]))
     print("expected:", fi["expected"])
     print("observed:", got)
+    e2 = expected(tuple([fi["op"]] + fi["args"]))
+    if isinstance(e2, tuple):
+        return 0 if e2[1](got) else 1
     return 1 if got != fi["expected"] else 0
 
 
